@@ -2,9 +2,11 @@ package sx
 
 import (
 	"bufio"
+	"bytes"
+	"context"
 	"fmt"
 	"io"
-	"os"
+	_ "os"
 	"os/exec"
 	"strconv"
 	"strings"
@@ -44,35 +46,63 @@ type Solver struct {
 	TimeoutMS int
 	LastErr   string
 	ValTime   time.Duration
+	Dead      bool
+	Restarts  int
+	Timeouts  int
 	AfterFlush bool
 	FlushTime time.Duration
 	FlushN int
 }
 
 func NewSolver(kind string, st *Store, timeoutMS int) (*Solver, error) {
+	s := &Solver{Kind: kind, st: st, TimeoutMS: timeoutMS}
+	if err := s.start(); err != nil {
+		return nil, err
+	}
+	return s, nil
+}
+
+// Restart replaces a dead solver process by a fresh one (all context is lost).
+func (s *Solver) Restart() error {
+	if s.cmd != nil && s.cmd.Process != nil {
+		s.cmd.Process.Kill()
+		s.cmd.Wait()
+	}
+	s.Dead = false
+	s.Restarts++
+	return s.start()
+}
+
+func (s *Solver) start() error {
+	kind, st, timeoutMS := s.Kind, s.st, s.TimeoutMS
+	_ = st
 	var cmd *exec.Cmd
 	switch kind {
 	case "z3", "z3-new":
 		cmd = exec.Command(kind, "-in", "-smt2")
 	case "cvc5":
-		cmd = exec.Command("cvc5", "--incremental", "--produce-models", "--lang=smt2", fmt.Sprintf("--tlimit-per=%d", timeoutMS))
+		cmd = exec.Command("cvc5", "--incremental", "--produce-models", "--lang=smt2")
 	default:
-		return nil, fmt.Errorf("unknown solver %q", kind)
+		return fmt.Errorf("unknown solver %q", kind)
 	}
 	stdin, err := cmd.StdinPipe()
 	if err != nil {
-		return nil, err
+		return err
 	}
 	stdout, err := cmd.StdoutPipe()
 	if err != nil {
-		return nil, err
+		return err
 	}
-	cmd.Stderr = os.Stderr
+	cmd.Stderr = nil
 	if err := cmd.Start(); err != nil {
-		return nil, err
+		return err
 	}
-	s := &Solver{Kind: kind, cmd: cmd, in: bufio.NewWriterSize(stdin, 1<<16), out: bufio.NewReaderSize(stdout, 1<<16), st: st,
-		names: map[*Term]string{}, tabs: map[int]bool{}, ufs: map[string]bool{}, TimeoutMS: timeoutMS}
+	s.cmd = cmd
+	s.in = bufio.NewWriterSize(stdin, 1<<16)
+	s.out = bufio.NewReaderSize(stdout, 1<<16)
+	s.names = map[*Term]string{}
+	s.tabs = map[int]bool{}
+	s.ufs = map[string]bool{}
 	s.scopes = [][]*Term{nil}
 	s.tabSc = [][]int{nil}
 	if kind != "cvc5" {
@@ -81,7 +111,7 @@ func NewSolver(kind string, st *Store, timeoutMS int) (*Solver, error) {
 	} else {
 		s.send("(set-logic ALL)")
 	}
-	return s, nil
+	return nil
 }
 
 func (s *Solver) Close() {
@@ -267,15 +297,31 @@ func (s *Solver) Check() Result { return s.check("(check-sat)") }
 
 func (s *Solver) check(cmd string) Result {
 	t0 := time.Now()
+	if s.Dead {
+		s.Queries++
+		s.UnknownN++
+		return Unknown
+	}
 	s.send(cmd)
 	s.in.Flush()
 	s.Queries++
 	res := Unknown
+	var wd *time.Timer
+	if s.Kind == "cvc5" {
+		proc := s.cmd.Process
+		wd = time.AfterFunc(time.Duration(s.TimeoutMS)*time.Millisecond, func() { proc.Kill() })
+		defer wd.Stop()
+	}
 	for {
 		line, err := s.readLine()
 		if err != nil {
-			s.Errors++
-			s.LastErr = "solver pipe: " + err.Error()
+			s.Dead = true
+			if s.Kind == "cvc5" && time.Since(t0) >= time.Duration(s.TimeoutMS)*time.Millisecond*9/10 {
+				s.Timeouts++ // killed by the watchdog: an ordinary timeout
+			} else {
+				s.Errors++
+				s.LastErr = "solver pipe: " + err.Error()
+			}
 			break
 		}
 		if line == "" {
@@ -500,4 +546,109 @@ func parseValue(toks []string, pos int) (uint64, int, error) {
 		}
 	}
 	return 0, pos, fmt.Errorf("bad value token %q", t)
+}
+
+// OneShot decides the conjunction of terms with a fresh, non-incremental solver process
+// (cvc5 is much faster on floating-point queries outside incremental mode).
+func OneShot(kind string, st *Store, terms []*Term, vars []*Term, timeoutMS int) (Result, Model, error) {
+	var buf bytes.Buffer
+	e := &Solver{Kind: kind, st: st, names: map[*Term]string{}, tabs: map[int]bool{}, ufs: map[string]bool{}}
+	e.in = bufio.NewWriter(&buf)
+	e.scopes = [][]*Term{nil}
+	e.tabSc = [][]int{nil}
+	e.send("(set-logic ALL)")
+	e.send("(set-option :produce-models true)")
+	needUF := false
+	for _, t := range terms {
+		if hasUF(t, map[*Term]bool{}) {
+			needUF = true
+		}
+	}
+	if needUF {
+		e.Prelude()
+	}
+	for _, t := range terms {
+		e.Assert(t)
+	}
+	e.send("(check-sat)")
+	if len(vars) > 0 {
+		var sb strings.Builder
+		sb.WriteString("(get-value (")
+		for _, v := range vars {
+			sb.WriteString(e.name(v))
+			sb.WriteByte(' ')
+		}
+		sb.WriteString("))")
+		e.send(sb.String())
+	}
+	e.in.Flush()
+	var cmd *exec.Cmd
+	ctx, cancel := context.WithTimeout(context.Background(), time.Duration(timeoutMS)*time.Millisecond)
+	defer cancel()
+	switch kind {
+	case "cvc5":
+		cmd = exec.CommandContext(ctx, "cvc5", "--produce-models", "--lang=smt2")
+	default:
+		cmd = exec.CommandContext(ctx, kind, "-in", "-smt2")
+	}
+	cmd.Stdin = &buf
+	out, err := cmd.Output()
+	text := string(out)
+	lines := strings.SplitN(strings.TrimSpace(text), "\n", 2)
+	if len(lines) == 0 || ctx.Err() != nil {
+		return Unknown, nil, nil
+	}
+	switch strings.TrimSpace(lines[0]) {
+	case "unsat":
+		return Unsat, nil, nil
+	case "sat":
+		md := Model{}
+		if len(vars) > 0 && len(lines) > 1 {
+			toks := tokenize(lines[1])
+			pos := 1
+			for pos < len(toks) && toks[pos] == "(" {
+				pos++
+				name := toks[pos]
+				pos++
+				var v uint64
+				var perr error
+				v, pos, perr = parseValue(toks, pos)
+				if perr != nil {
+					return Unknown, nil, perr
+				}
+				pos++
+				md[name] = v
+			}
+		}
+		return Sat, md, nil
+	case "unknown", "timeout":
+		return Unknown, nil, nil
+	}
+	if err != nil {
+		return Unknown, nil, fmt.Errorf("one-shot solver: %v: %s", err, firstLine(text))
+	}
+	return Unknown, nil, fmt.Errorf("one-shot solver said: %s", firstLine(text))
+}
+
+func firstLine(s string) string {
+	if i := strings.IndexByte(s, '\n'); i >= 0 {
+		return s[:i]
+	}
+	return s
+}
+
+func hasUF(t *Term, seen map[*Term]bool) bool {
+	if t.Op == OpConst || t.Op == OpVar || seen[t] {
+		return false
+	}
+	seen[t] = true
+	if t.Op == OpUF {
+		return true
+	}
+	for _, a := range t.Args {
+		if hasUF(a, seen) {
+			return true
+		}
+	}
+	return false
 }
